@@ -243,7 +243,7 @@ def gen_svc(rng, epr, hist):
     scopes = None if rng.random() < 0.2 else {'mb': None, 'text': gen_scope_list(rng)}
     r = rng.random()
     xaddrs = None if r < 0.12 else [f'http://10.0.0.{rng.randint(1, 3)}:{rng.randint(1, 3)}/x' for _ in range(rng.choice([0, 1, 1, 2, 3]))]
-    mdv = rng.choice([1, 1, 2, 2, 3, 4, 5, 4294967296])
+    mdv = rng.choice([1, 1, 2, 2, 3, 4, 5, 4294967295])
     return {'epr': epr, 'types': types, 'scopes': scopes, 'xaddrs': xaddrs, 'mdv': mdv}
 
 
@@ -267,7 +267,7 @@ def gen_seq(rng, hist):
     next_mid = 1
     used = []
     published = []
-    n_sent_guess = 0
+    pub_info = {}
     iid = 10
     for _ in range(rng.randint(3, 14)):
         r = rng.random()
@@ -279,10 +279,12 @@ def gen_seq(rng, hist):
                            [f'http://127.0.0.1:{rng.randint(1, 3)}/p' for _ in range(rng.choice([0, 1, 2]))], iid])
             if epr not in published:
                 published.append(epr)
+            pub_info[epr] = (events[-1][2], None if sc is None else sc['text'])
             hist['ev-pub'] += 1
         elif r < 0.2 and published:
             epr = rng.choice(published)
             published.remove(epr)
+            pub_info.pop(epr, None)
             events.append(['clear', epr])
             hist['ev-clear'] += 1
         elif r < 0.25:
@@ -310,12 +312,35 @@ def gen_seq(rng, hist):
                 m = {'kind': 'bye', 'epr': epr}
             elif k < 0.62:
                 t, s = gen_filter(rng)
+                if pub_info and rng.random() < 0.55:
+                    # ask for (part of) what a published service offers: types subset, scopes that are prefixes / re-spellings
+                    ptypes, pscopes = pub_info[rng.choice(sorted(pub_info))]
+                    t = None if rng.random() < 0.3 else [x for x in ptypes if rng.random() < 0.7]
+                    if pscopes and rng.random() < 0.7:
+                        pick = [x for x in pscopes if rng.random() < 0.7 and x in SCOPE_TEXT]
+                        text = []
+                        for x in pick:
+                            u = json.loads(json.dumps(SCOPE_TEXT[x]))
+                            if len(u['parts']) > 2 and rng.random() < 0.5:
+                                u['parts'] = u['parts'][:-1]
+                            if rng.random() < 0.3:
+                                u['scheme'] = swap_case(u['scheme'])
+                            u['query'] = None
+                            SCOPE_TEXT.setdefault(render(u), u)
+                            text.append(render(u))
+                        mbs = rng.choice([None, None, '', MATCHBY['uri'], MATCHBY['strcmp']])
+                        if mbs == MATCHBY['strcmp']:
+                            text = pick
+                        s = {'mb': mbs, 'text': text}
+                    else:
+                        s = None if rng.random() < 0.5 else s
                 m = {'kind': 'probe', 'types': t, 'scopes': s}
             elif k < 0.77:
                 m = {'kind': 'probematches', 'appseq': aps, 'strip': strip,
                      'matches': [gen_svc(rng, rng.choice(remote_eprs), hist) for _ in range(rng.choice([0, 1, 1, 2, 3]))]}
             elif k < 0.87:
-                m = {'kind': 'resolve', 'epr': rng.choice(local_eprs + remote_eprs)}
+                m = {'kind': 'resolve', 'epr': rng.choice(published) if published and rng.random() < 0.5 else
+                     rng.choice(local_eprs + remote_eprs)}
             elif k < 0.97:
                 m = {'kind': 'resolvematches', 'appseq': aps, 'strip': strip,
                      'match': None if rng.random() < 0.1 else gen_svc(rng, epr, hist)}
@@ -601,7 +626,7 @@ def run(ctx):
                   'u1': {'scheme': 'x', 'auth': None, 'parts': ['', '%FF'], 'query': None, 'frag': None},
                   'u2': {'scheme': 'x', 'auth': None, 'parts': ['', '%FE'], 'query': None, 'frag': None}}]
     shist = Counter()
-    seqs = [gen_seq(ctx.rng, shist) for _ in range(ctx.n(400, 8000))]
+    seqs = [gen_seq(ctx.rng, shist) for _ in range(ctx.n(600, 12000))]
     impl = ctx.impl('c14_impl', {'pairs': [{'mb': p['mb'], 'a': p['a'], 'b': p['b']} for p in pairs], 'seqs': seqs,
                                  'scope_pool': list(SCOPE_TEXT) + MALFORMED_SCOPES},
                     timeout=2400)
